@@ -22,8 +22,8 @@ type strVariant struct {
 	table     *core.Table
 	tableName string
 	// every [256]bool table the appender consults (tail scan, slow path): all must satisfy the variant's requirement
-	tables    []*core.Table
-	tablePos  map[string]token.Pos
+	tables   []*core.Table
+	tablePos map[string]token.Pos
 }
 
 // stringVariants derives, from the body of encoder.AppendString, which
@@ -719,7 +719,7 @@ func setOf(s string) map[int]bool {
 func c05r4(rc *core.RC) {
 	specs := []struct {
 		pkg, name, what string
-		want           map[int]bool
+		want            map[int]bool
 	}{
 		{"decoder", "floatTable", "number characters 0-9 . e E + -", setOf("0123456789.eE+-")},
 		{"encoder", "floatTable", "number characters 0-9 . e E + -", setOf("0123456789.eE+-")},
